@@ -45,6 +45,7 @@ func main() {
 	out := flag.String("out", "", "scratch directory for rewritten files")
 	shim := flag.String("shim", "/verif/shim", "shim source root")
 	ovl := flag.String("overlay", "", "overlay json to write")
+	src := flag.String("src", "", "read sources from this copy of the repository instead (mutation runs); the overlay still targets -repo")
 	flag.Parse()
 	if *out == "" || *ovl == "" {
 		fmt.Fprintln(os.Stderr, "usage: instrument -out DIR -overlay FILE")
@@ -52,6 +53,10 @@ func main() {
 	}
 	replace := map[string]string{}
 	must(os.MkdirAll(*out, 0o755))
+	target := *repo
+	if *src != "" {
+		*repo = *src
+	}
 
 	err := filepath.Walk(*repo, func(path string, info os.FileInfo, err error) error {
 		if err != nil {
@@ -68,29 +73,42 @@ func main() {
 		}
 		rel, _ := filepath.Rel(*repo, path)
 		dst := filepath.Join(*out, strings.ReplaceAll(rel, string(filepath.Separator), "__"))
+		srcPath := path
+		path = filepath.Join(target, rel)
 		if filepath.Dir(rel) == "." && emptied[rel] {
-			src, err := os.ReadFile(path)
+			src, err := os.ReadFile(srcPath)
 			if err != nil {
 				return err
 			}
 			pkg := "raft"
-			if f, err := parser.ParseFile(token.NewFileSet(), path, src, parser.PackageClauseOnly); err == nil {
+			if f, err := parser.ParseFile(token.NewFileSet(), srcPath, src, parser.PackageClauseOnly); err == nil {
 				pkg = f.Name.Name
 			}
 			must(os.WriteFile(dst, []byte("package "+pkg+"\n"), 0o644))
 			replace[path] = dst
 			return nil
 		}
+		differs := false
+		if srcPath != path {
+			a, _ := os.ReadFile(srcPath)
+			b, err := os.ReadFile(path)
+			differs = err != nil || string(a) != string(b)
+		}
 		if filepath.Dir(rel) == "." && keepReal[rel] {
+			if differs {
+				replace[path] = srcPath
+			}
 			return nil
 		}
-		changed, text, err := rewrite(path)
+		changed, text, err := rewrite(srcPath)
 		if err != nil {
 			return fmt.Errorf("%s: %w", rel, err)
 		}
 		if changed {
 			must(os.WriteFile(dst, text, 0o644))
 			replace[path] = dst
+		} else if differs {
+			replace[path] = srcPath
 		}
 		return nil
 	})
@@ -111,9 +129,9 @@ func main() {
 			}
 			src := filepath.Join(*shim, p.Name(), f.Name())
 			if p.Name() == "inpkg" {
-				replace[filepath.Join(*repo, "zz_verif_"+f.Name())] = src
+				replace[filepath.Join(target, "zz_verif_"+f.Name())] = src
 			} else {
-				replace[filepath.Join(*repo, "verifshim", p.Name(), f.Name())] = src
+				replace[filepath.Join(target, "verifshim", p.Name(), f.Name())] = src
 			}
 		}
 	}
